@@ -5,6 +5,7 @@ from reamber.osu.OsuMap import OsuMap
 from reamber.osu.lists.OsuBpmList import OsuBpmList
 from reamber.osu.lists.notes.OsuHitList import OsuHitList
 from reamber.osu.lists.notes.OsuHoldList import OsuHoldList
+from reamber.sm.SMMapMeta import SMMapChartTypes
 from reamber.sm.SMMapSet import SMMapSet
 
 
@@ -37,6 +38,7 @@ class SMToOsu(ConvertBase):
             osu.creator = sms.credit
             osu.version = f"{sm.difficulty} {sm.difficulty_val}"
             osu.preview_time = int(sms.sample_start)
+            osu.circle_size = SMMapChartTypes.get_keys(sm.chart_type)
 
             osus.append(osu)
         return osus
